@@ -142,6 +142,12 @@ theorem paint_order_respects_E (root : Box) : paintOrder root = specOrder root :
     simp only [paintOrder, specOrder]
     rw [ctx_none_of id pr children (dispatchChildren_eq children)]
 
+/-- the page: `@page` background, then the canvas background, then the root element's stacking context -/
+theorem page_order_respects_E (pageBg canvasBg : Option Nat) (root : Box) :
+    pagePaint pageBg canvasBg root = specPage pageBg canvasBg root := by
+  simp only [pagePaint, specPage, paint_order_respects_E]
+  cases pageBg <;> cases canvasBg <;> simp
+
 /-- the sub-contexts found inside a float / positioned z-index:auto box are handed to the enclosing real
     context, in tree order, after the ones found before it -/
 theorem pseudo_context_lifts (b : Box) (cc : List CCtx) :
